@@ -119,6 +119,7 @@ func (c *wsConn) nextMessage() {
 	if err != nil {
 		c.errLk.Lock()
 		c.incomingErr = err
+		vhook("reader.err", c, "nextreader")
 		c.errLk.Unlock()
 		close(c.incoming)
 		return
@@ -126,10 +127,12 @@ func (c *wsConn) nextMessage() {
 	if msgType != websocket.BinaryMessage && msgType != websocket.TextMessage {
 		c.errLk.Lock()
 		c.incomingErr = errors.New("unsupported message type")
+		vhook("reader.err", c, "msgtype")
 		c.errLk.Unlock()
 		close(c.incoming)
 		return
 	}
+	vhook("reader.msg", c)
 	c.incoming <- r
 }
 
@@ -138,6 +141,7 @@ func (c *wsConn) nextMessage() {
 func (c *wsConn) nextWriter(cb func(io.Writer)) {
 	c.writeLk.Lock()
 	defer c.writeLk.Unlock()
+	vhook("write.locked", c, "nextWriter")
 
 	wcl, err := c.conn.NextWriter(websocket.TextMessage)
 	if err != nil {
@@ -145,6 +149,7 @@ func (c *wsConn) nextWriter(cb func(io.Writer)) {
 		return
 	}
 
+	vhook("nw.acquired", c)
 	cb(wcl)
 
 	if err := wcl.Close(); err != nil {
@@ -156,6 +161,8 @@ func (c *wsConn) nextWriter(cb func(io.Writer)) {
 func (c *wsConn) sendRequest(req request) error {
 	c.writeLk.Lock()
 	defer c.writeLk.Unlock()
+	vhook("write.locked", c, "sendRequest")
+	vhook("send.req", c, req.Method, req.ID)
 
 	if debugTrace {
 		log.Debugw("sendRequest", "req", req.Method, "id", req.ID)
@@ -203,6 +210,7 @@ func (c *wsConn) handleOutChans() {
 			}
 
 			registration := val.Interface().(outChanReg)
+			vhook("och.reg", c, registration.chID, registration.reqID)
 
 			caseToID = append(caseToID, registration.chID)
 			cases = append(cases, reflect.SelectCase{
@@ -241,6 +249,7 @@ func (c *wsConn) handleOutChans() {
 			// Output channel closed, cleanup, and tell remote that this happened
 
 			id := caseToID[chosen-internal]
+			vhook("och.close", c, id)
 
 			n := len(cases) - 1
 			if n > 0 {
@@ -268,6 +277,7 @@ func (c *wsConn) handleOutChans() {
 			continue
 		}
 
+		vhook("och.val", c, caseToID[chosen-internal])
 		// forward message
 		rp, err := json.Marshal([]param{{v: reflect.ValueOf(caseToID[chosen-internal])}, {v: val}})
 		if err != nil {
@@ -293,6 +303,7 @@ func (c *wsConn) handleChanOut(ch reflect.Value, req interface{}) error {
 		go c.handleOutChans()
 	})
 	id := atomic.AddUint64(&c.chanCtr, 1)
+	vhook("och.alloc", c, id, req)
 
 	select {
 	case c.registerCh <- outChanReg{
@@ -320,6 +331,7 @@ func (c *wsConn) handleChanOut(ch reflect.Value, req interface{}) error {
 //	contexts correctly (cancelling when async functions are no longer is use)
 func (c *wsConn) handleCtxAsync(actx context.Context, id interface{}) {
 	<-actx.Done()
+	vhook("ctxasync.cancel", c, id)
 
 	rp, err := json.Marshal([]param{{v: reflect.ValueOf(id)}})
 	if err != nil {
@@ -369,6 +381,7 @@ func (c *wsConn) cancelCtx(req frame) {
 	defer c.handlingLk.Unlock()
 
 	cf, ok := c.handling[id]
+	vhook("cancel.recv", c, id, ok)
 	if ok {
 		cf()
 	}
@@ -409,6 +422,7 @@ func (c *wsConn) handleChanMessage(frame frame) {
 
 	c.chanHandlersLk.Unlock()
 
+	vhook("ch.val", c, chid)
 	hnd.cb(params[1].data, true)
 }
 
@@ -444,6 +458,7 @@ func (c *wsConn) handleChanClose(frame frame) {
 	delete(c.chanHandlers, chid)
 
 	c.chanHandlersLk.Unlock()
+	vhook("ch.close", c, chid)
 
 	hnd.cb(nil, false)
 }
@@ -452,6 +467,7 @@ func (c *wsConn) handleResponse(frame frame) {
 	c.inflightLk.Lock()
 	req, ok := c.inflight[frame.ID]
 	c.inflightLk.Unlock()
+	vhook("resp.lookup", c, frame.ID, ok)
 	if !ok {
 		log.Error("client got unknown ID in response")
 		return
@@ -469,11 +485,13 @@ func (c *wsConn) handleResponse(frame frame) {
 
 		c.chanHandlersLk.Lock()
 		c.chanHandlers[chid] = &chanHandler{cb: chHnd}
+		vhook("resp.chreg", c, chid, frame.ID)
 		c.chanHandlersLk.Unlock()
 
 		go c.handleCtxAsync(chanCtx, frame.ID)
 	}
 
+	vhook("resp.deliver", c, frame.ID)
 	req.ready <- clientResponse{
 		Jsonrpc: frame.Jsonrpc,
 		Result:  frame.Result,
@@ -482,6 +500,7 @@ func (c *wsConn) handleResponse(frame frame) {
 	}
 	c.inflightLk.Lock()
 	delete(c.inflight, frame.ID)
+	vhook("resp.delete", c, frame.ID)
 	c.inflightLk.Unlock()
 }
 
@@ -514,6 +533,7 @@ func (c *wsConn) handleCall(ctx context.Context, frame frame) {
 
 		c.handlingLk.Lock()
 		c.handling[frame.ID] = cancel
+		vhook("call.register", c, frame.ID)
 		c.handlingLk.Unlock()
 
 		done = func(keepctx bool) {
@@ -527,6 +547,7 @@ func (c *wsConn) handleCall(ctx context.Context, frame frame) {
 		}
 	}
 
+	vhook("call.dispatch", c, frame.ID, frame.Method)
 	go c.handler.handle(ctx, req, nextWriter, rpcError, done, c.handleChanOut)
 }
 
@@ -553,6 +574,7 @@ func (c *wsConn) handleFrame(ctx context.Context, frame frame) {
 func (c *wsConn) closeInFlight() {
 	c.inflightLk.Lock()
 	for id, req := range c.inflight {
+		vhook("cif.deliver", c, id)
 		req.ready <- clientResponse{
 			Jsonrpc: "2.0",
 			ID:      id,
@@ -563,6 +585,7 @@ func (c *wsConn) closeInFlight() {
 		}
 	}
 	c.inflight = map[interface{}]clientRequest{}
+	vhook("cif.cleared", c)
 	c.inflightLk.Unlock()
 
 	c.handlingLk.Lock()
@@ -570,6 +593,7 @@ func (c *wsConn) closeInFlight() {
 		cancel()
 	}
 	c.handling = map[interface{}]context.CancelFunc{}
+	vhook("cif.cancelled", c)
 	c.handlingLk.Unlock()
 
 }
@@ -587,6 +611,7 @@ func (c *wsConn) closeChans() {
 
 		c.chanHandlersLk.Unlock()
 
+		vhook("cc.close", c, chid)
 		hnd.cb(nil, false)
 
 		hnd.lk.Unlock()
@@ -600,6 +625,7 @@ func (c *wsConn) setupPings() func() {
 	}
 
 	c.conn.SetPongHandler(func(appData string) error {
+		vhook("pong.recv", c)
 		select {
 		case c.pongs <- struct{}{}:
 		default:
@@ -608,6 +634,7 @@ func (c *wsConn) setupPings() func() {
 	})
 	conn := c.conn
 	c.conn.SetPingHandler(func(appData string) error {
+		vhook("ping.recv", c)
 		// treat pings as pongs - this lets us register server activity even if it's too busy to respond to our pings
 		select {
 		case c.pongs <- struct{}{}:
@@ -632,6 +659,8 @@ func (c *wsConn) setupPings() func() {
 			select {
 			case <-time.After(c.pingInterval):
 				c.writeLk.Lock()
+				vhook("write.locked", c, "ping")
+				vhook("ping.send", c)
 				if err := c.conn.WriteMessage(websocket.PingMessage, []byte{}); err != nil {
 					log.Errorf("sending ping message: %+v", err)
 				}
@@ -666,6 +695,7 @@ func (c *wsConn) tryReconnect(ctx context.Context) bool {
 	}
 	c.errLk.Unlock()
 
+	vhook("reconn.begin", c)
 	c.closeInFlight()
 	c.closeChans()
 	c.incoming = make(chan io.Reader) // listen again for responses
@@ -675,6 +705,7 @@ func (c *wsConn) tryReconnect(ctx context.Context) bool {
 		attempts := 0
 		var conn *websocket.Conn
 		for conn == nil {
+			vhook("redial.attempt", c, attempts)
 			time.Sleep(c.reconnectBackoff.next(attempts))
 			if ctx.Err() != nil {
 				return
@@ -683,6 +714,7 @@ func (c *wsConn) tryReconnect(ctx context.Context) bool {
 			if conn, err = c.connFactory(); err != nil {
 				log.Debugw("websocket connection retry failed", "error", err)
 			}
+			vhook("redial.dialed", c, err == nil)
 			select {
 			case <-ctx.Done():
 				return
@@ -693,9 +725,11 @@ func (c *wsConn) tryReconnect(ctx context.Context) bool {
 
 		c.writeLk.Lock()
 		c.conn = conn
+		vhook("write.locked", c, "swap")
 		c.errLk.Lock()
 		c.incomingErr = nil
 		c.errLk.Unlock()
+		vhook("redial.swap", c)
 
 		c.stopPings = c.setupPings()
 
@@ -716,10 +750,12 @@ func (c *wsConn) readFrame(ctx context.Context, r io.Reader) {
 	// use a autoResetReader in case the read takes a long time
 	buf, err := io.ReadAll(c.autoResetReader(r)) // todo buffer pool
 	if err != nil {
+		vhook("frame.err", c)
 		c.readError <- xerrors.Errorf("reading frame into a buffer: %w", err)
 		return
 	}
 
+	vhook("frame.enq", c)
 	c.frameExecQueue <- buf
 	if len(c.frameExecQueue) > 2*cap(c.frameExecQueue)/3 { // warn at 2/3 capacity
 		log.Warnw("frame executor queue is backlogged", "queued", len(c.frameExecQueue), "cap", cap(c.frameExecQueue))
@@ -735,6 +771,7 @@ func (c *wsConn) frameExecutor(ctx context.Context) {
 		case <-ctx.Done():
 			return
 		case buf := <-c.frameExecQueue:
+			vhook("exec.take", c)
 			var frame frame
 			if err := json.Unmarshal(buf, &frame); err != nil {
 				log.Warnw("failed to unmarshal frame", "error", err)
@@ -771,6 +808,7 @@ func (c *wsConn) handleWsConn(ctx context.Context) {
 
 	c.registerCh = make(chan outChanReg)
 	defer close(c.exiting)
+	defer vhook("loop.exit", c)
 
 	// ////
 
@@ -818,6 +856,7 @@ func (c *wsConn) handleWsConn(ctx context.Context) {
 			c.errLk.Lock()
 			err := c.incomingErr
 			c.errLk.Unlock()
+			vhook("loop.incoming", c, ok, err != nil)
 
 			if ok {
 				go c.readFrame(ctx, r)
@@ -835,6 +874,7 @@ func (c *wsConn) handleWsConn(ctx context.Context) {
 			}
 		case rerr := <-c.readError:
 			action = "read-error"
+			vhook("loop.readerr", c)
 
 			log.Debugw("websocket error", "error", rerr, "lastAction", action, "time", time.Since(start))
 			if !c.tryReconnect(ctx) {
@@ -842,9 +882,11 @@ func (c *wsConn) handleWsConn(ctx context.Context) {
 			}
 		case <-ctx.Done():
 			log.Debugw("context cancelled", "error", ctx.Err(), "lastAction", action, "time", time.Since(start))
+			vhook("loop.ctxdone", c)
 			return
 		case req := <-c.requests:
 			action = fmt.Sprintf("send-request(%s,%v)", req.req.Method, req.req.ID)
+			vhook("loop.take", c, req.req.Method, req.req.ID)
 
 			c.writeLk.Lock()
 			if req.req.ID != nil { // non-notification
@@ -852,6 +894,7 @@ func (c *wsConn) handleWsConn(ctx context.Context) {
 				hasErr := c.incomingErr != nil
 				c.errLk.Unlock()
 				if hasErr { // No conn?, immediate fail
+					vhook("loop.failfast", c, req.req.ID)
 					req.ready <- clientResponse{
 						Jsonrpc: "2.0",
 						ID:      req.req.ID,
@@ -865,10 +908,12 @@ func (c *wsConn) handleWsConn(ctx context.Context) {
 				}
 				c.inflightLk.Lock()
 				c.inflight[req.req.ID] = req
+				vhook("loop.register", c, req.req.ID)
 				c.inflightLk.Unlock()
 			}
 			c.writeLk.Unlock()
 			serr := c.sendRequest(req.req)
+			vhook("loop.sent", c, req.req.Method, req.req.ID, serr == nil)
 			if serr != nil {
 				log.Errorf("sendReqest failed (Handle me): %s", serr)
 			}
@@ -887,6 +932,7 @@ func (c *wsConn) handleWsConn(ctx context.Context) {
 
 		case <-c.pongs:
 			action = "pong"
+			vhook("loop.pong", c)
 
 			c.resetReadDeadline()
 		case <-timeoutCh:
@@ -896,6 +942,8 @@ func (c *wsConn) handleWsConn(ctx context.Context) {
 			}
 
 			c.writeLk.Lock()
+			vhook("write.locked", c, "timeout")
+			vhook("loop.timeout", c)
 			if err := c.conn.Close(); err != nil {
 				log.Warnw("timed-out websocket close error", "error", err)
 			}
@@ -909,6 +957,8 @@ func (c *wsConn) handleWsConn(ctx context.Context) {
 			continue
 		case <-c.stop:
 			c.writeLk.Lock()
+			vhook("write.locked", c, "stop")
+			vhook("loop.stop", c)
 			cmsg := websocket.FormatCloseMessage(websocket.CloseNormalClosure, "")
 			if err := c.conn.WriteMessage(websocket.CloseMessage, cmsg); err != nil {
 				log.Warn("failed to write close message: ", err)
@@ -961,6 +1011,7 @@ func (r *deadlineResetReader) Read(p []byte) (n int, err error) {
 
 func (c *wsConn) resetReadDeadline() {
 	if c.timeout > 0 {
+		vhook("deadline.reset", c)
 		if err := c.conn.SetReadDeadline(time.Now().Add(c.timeout)); err != nil {
 			log.Error("setting read deadline", err)
 		}
